@@ -1239,7 +1239,8 @@ pub static C15: PropDef = PropDef {
     id: "C15",
     rule: "states x N in 0..=4 x key tuples with duplicates, absent and colliding keys (HashMap get_many_mut and \
            get_many_key_value_mut; HashTable get_many_mut with exact and id-only equality closures that can match \
-           several entries), N also 9 and 12; one program in seven runs on the element-layout family (zero-sized, \
+           several entries), N also 9 and 12; one HashMap call in three passes unsized equivalent keys that are all cut from \
+           one buffer and so start at one address; one program in seven runs on the element-layout family (zero-sized, \
            over-aligned, large elements) with N = 1 and N = 2 (one present, one absent); non-trivial = N >= 2 with at \
            least two present keys, or a tuple naming the same present entry twice",
     level: "exploration",
@@ -1527,7 +1528,10 @@ pub static C17: PropDef = PropDef {
            bucket_mask_to_capacity for all 64 masks; calculate_layout_for over sizes {0..=64, .., 2^62, isize::MAX/2 +- 1, \
            random} x alignments 1..=4096 (sizes rounded to multiples of the alignment: layouts of real types) x 64 bucket \
            counts; probe sequences of 2^k buckets (k <= 20 quick / 26 thorough) from every start (k <= 12) or boundary + \
-           sampled starts; TableLayout::new for 38 real types. Oracle: u128 arithmetic written from the statement. \
+           sampled starts; TableLayout::new for 38 real types. requests through live HashTable / HashSet objects (len 0..100, four element sizes): try_reserve / reserve \
+           with len + additional within 2 of every 2^k and 7/8*2^k (k <= 17 quick / 21 thorough) and additional within 4 \
+           of usize::MAX - len, usize::MAX, isize::MAX, around 2^56..2^63 (Ok needs capacity() >= len + additional; \
+           a panic or a wrapped sum is a violation). Oracle: u128 arithmetic written from the statement. \
            Non-trivial = input within 2 of a 2^k or 7/8*2^k boundary, a zero size, a bucket count >= 2^56 or a product \
            >= 2^62, or a probe start in the first/last group",
     level: "exploration",
@@ -1728,7 +1732,7 @@ pub static C19: PropDef = PropDef {
     rule: "occupancy patterns built by fill / insert / remove-range / remove-stride histories on a HashMap, two \
            HashSets and a HashTable (up to ~4096 buckets) of atomically tracked elements x parallel operation x pool \
            size in {1,2,3,4,8,16,64}: par_iter / par_keys / par_values / par_iter_mut / par_values_mut, into_par_iter \
-           and par_drain fully consumed or stopped early (try_for_each, find_any), par_extend, from_par_iter, par_eq, \
+           and par_drain fully consumed or stopped early (try_for_each, find_any, or a consumer that panics at the k-th item), par_extend, from_par_iter, par_eq, \
            parallel set operations and predicates vs mathematical results; plus EXPLICIT split trees through the hooks: \
            RawIterRange::split leaves must partition the FULL bucket indices, and ParDrainProducer driven along a tree \
            of split / fold-with-a-folder-that-fills-up / drop decisions. Oracle: delivered multiset == contents, drop \
